@@ -82,6 +82,8 @@ pub enum Cert {
     /// EC P-521, self-signed, in the trust file: the 133-byte key makes every DER length of the final CredSSP round
     /// fall into 128..255 (one long-form octet)
     P521,
+    /// RSA-2048, self-signed, NOT in the trust file: same subject, issuer and serial number as A, another key
+    AClone,
     /// certificates derived from a valid one by DER surgery (signature no longer valid: only usable with
     /// certificate checking off); index into ODD_CERTS
     Odd(u8),
@@ -117,6 +119,7 @@ impl Cert {
             Cert::TamperedA => ("tamper.cert.pem", "a.key.pem"),
             Cert::Ed25519FF => ("edff.cert.pem", "edff.key.pem"),
             Cert::P521 => ("p521.cert.pem", "p521.key.pem"),
+            Cert::AClone => ("aclone.cert.pem", "aclone.key.pem"),
             Cert::Odd(_) => unreachable!(),
         };
         (c.to_string(), k.to_string())
@@ -339,7 +342,14 @@ pub struct ConnCfg {
     /// the SAME Connector object was used for earlier connect() calls before being re-configured (every setter called
     /// again) for this one: 0 none; 1 / 2 = one / two earlier attempts, configured for another account with every flag
     /// inverted, that the server answered with RDP_NEG_FAILURE; 3 = one earlier complete connection with that other
-    /// configuration; 4 = one earlier attempt with THIS configuration answered with RDP_NEG_FAILURE
+    /// configuration; 4 = one earlier attempt with THIS configuration answered with RDP_NEG_FAILURE;
+    /// 5 / 6 / 7 = one earlier complete connection with a configuration differing ONLY in certificate checking (off) /
+    /// in use_nla (inverted) / in auto logon, restricted admin and blank credentials (inverted), after which only the
+    /// setters of the differing settings are called again; 8 / 9 = one earlier attempt with this configuration but a
+    /// password of 20 000 characters / a client name of 40 000 characters (too long for the Client Info PDU / the
+    /// confirm-active: the client gives up by itself), then re-configured; 10 / 11 = one earlier attempt with THIS
+    /// configuration answered with RDP_NEG_FAILURE / one earlier complete connection with it, after which connect() is
+    /// simply called again (no setter is touched: a retry)
     pub earlier_connections: u8,
 }
 
@@ -455,7 +465,23 @@ pub fn tls_connect_fragmented(cfg: &ConnCfg, mut p: ServerParams, devs: Vec<Devi
         let mut other = cfg.clone();
         other.earlier_connections = 0;
         other.builder_order = 1;
-        if cfg.earlier_connections != 4 {
+        if cfg.earlier_connections == 5 {
+            other.check_certificate = false;
+        } else if cfg.earlier_connections == 6 {
+            other.use_nla = !cfg.use_nla;
+        } else if cfg.earlier_connections == 7 {
+            other.client.auto_logon = !cfg.client.auto_logon;
+            other.restricted_admin = !cfg.restricted_admin;
+            other.blank_creds = !cfg.blank_creds;
+        } else if cfg.earlier_connections == 8 {
+            other.client.password = "p".repeat(20000);
+            other.use_hash = false;
+        } else if cfg.earlier_connections == 9 {
+            other.client.name = "n".repeat(40000);
+        } else if cfg.earlier_connections == 10 || cfg.earlier_connections == 11 {
+            // same configuration, built the way this case builds it
+            other.builder_order = cfg.builder_order;
+        } else if cfg.earlier_connections != 4 {
             other.client.domain = "other".into();
             other.client.user = "someone".into();
             other.client.password = "else-Passw0rd".into();
@@ -472,7 +498,8 @@ pub fn tls_connect_fragmented(cfg: &ConnCfg, mut p: ServerParams, devs: Vec<Devi
             p0.acct_user = other.client.user.clone();
             p0.acct_domain = other.client.domain.clone();
             p0.acct_password = other.client.password.clone();
-            if cfg.earlier_connections == 3 {
+            if cfg.earlier_connections == 3 || (cfg.earlier_connections >= 5 && cfg.earlier_connections != 10) {
+                p0.reactivations = 0;
                 p0.selected = if other.use_nla { 2 } else { 1 };
             } else {
                 p0.cc_kind = crate::peer::CcKind::Failure;
@@ -482,10 +509,24 @@ pub fn tls_connect_fragmented(cfg: &ConnCfg, mut p: ServerParams, devs: Vec<Devi
             let link0 = MemLink::with_peer(peer0.clone());
             link0.sh.borrow_mut().spin_limit = 2_000_000;
             let r0 = k.connect(link0);
-            if cfg.earlier_connections == 3 && r0.is_err() {
+            if std::env::var("VERIF_DEBUG_EARLIER").is_ok() {
+                eprintln!("earlier mode {}: {:?} server errors {:?}", cfg.earlier_connections, r0.as_ref().err(), peer0.borrow().srv.errors);
+            }
+            if (cfg.earlier_connections == 3 || cfg.earlier_connections == 11 || (5..=7).contains(&cfg.earlier_connections)) && r0.is_err() {
                 return Err(format!("the earlier (honest) connection of the same connector failed: {:?}", r0.err()));
             }
         }
+        // modes 5..7: only the setters of the settings that differ are called again
+        if cfg.earlier_connections == 5 {
+            k = if cfg.check_certificate { k.check_certificate(true) } else { k };
+        } else if cfg.earlier_connections == 6 {
+            k = k.use_nla(cfg.use_nla);
+        } else if cfg.earlier_connections == 7 {
+            k = k.auto_logon(cfg.client.auto_logon).set_restricted_admin_mode(cfg.restricted_admin).blank_creds(cfg.blank_creds);
+        }
+        if (5..=7).contains(&cfg.earlier_connections) || cfg.earlier_connections >= 10 {
+            k
+        } else {
         // re-configuration: every setter is called again, credentials first (the order of the GUI client)
         let k = if cfg.use_hash {
             k.credentials(cfg.client.domain.clone(), cfg.client.user.clone(), String::new()).set_password_hash(vref::ntlm::nt_hash(&cfg.client.password).to_vec())
@@ -493,6 +534,7 @@ pub fn tls_connect_fragmented(cfg: &ConnCfg, mut p: ServerParams, devs: Vec<Devi
             k.credentials(cfg.client.domain.clone(), cfg.client.user.clone(), cfg.client.password.clone())
         };
         k.screen(cfg.client.width, cfg.client.height).layout(layout_of(cfg.client.layout)).name(cfg.client.name.clone()).auto_logon(cfg.client.auto_logon).use_nla(cfg.use_nla).set_restricted_admin_mode(cfg.restricted_admin).blank_creds(cfg.blank_creds).check_certificate(cfg.check_certificate)
+        }
     };
     let r = k.connect(link);
     let (client, error) = match r {
